@@ -323,7 +323,7 @@ def run(ctx):
         raise core.BuildError("Kernel/TasklocalExtract.v does not compile:\n" + log[-2000:])
     exe = ctx.link("c09_tasklocal", ["c09_tasklocal.c"], exclude=["qthread.c"])
     drv = ctx.model_driver("c09_driver")
-    nstep, nfree = (22, 10) if quick else (120, 50)
+    nstep, nfree = (22, 10) if quick else (70, 28)
     evals = 0
     mismatches, oracle_fail, samples = [], [], []
     nontrivial = set()
